@@ -415,69 +415,11 @@ def P10(ctx, facts, aspects=("sites", "released", "pure-waiter", "spawn", "keeps
         ctx.check(c.fn.nkey.startswith("client::pool::PoolInner::") and "{closure" not in c.fn.nkey,
                   "marker|remove-in|%s" % c.fn.nkey, "marker cleared inside PoolInner (hand-back / cancel_connection)", "marker cleared in %s" % c.fn.nkey, c.where())
     ctx.floor("marker|remove-sites", len(rem_sites), 2, "sites clearing the in-flight marker")
-    # pinned drop pairing
-    d = checkout_drop(facts)
-    ctx.touched(d)
-    spawn = d.calls(*SPAWN)
-    cancel = d.calls("client::pool::PoolInner::cancel_connection")
-    ctx.floor("Checkout::drop|spawn", len(spawn), 1, "spawn of the delayed checkout")
-    ctx.floor("Checkout::drop|cancel", len(cancel), 1, "cancel_connection in the pinned drop")
-    through = {c.bb for c in spawn} | {c.bb for c in cancel}
-
-    def exempt(lab):
-        # pool gone: None edge of PoolRef::lock guarding the cancel; or the checkout is a pure waiter
-        if lab.kind == "variant" and lab.variants == {"None"}:
-            site = d.call_defining(lab.place["l"])
-            return site is not None and site.is_("client::pool::PoolRef::lock") and any(c.bb in d.reach([site.bb]) for c in cancel)
-        if lab.kind == "variant" and lab.variants == {"Waiting"} and (lab.adt or "").endswith("InnerCheckoutConnecting"):
-            return True
-        return False
-
-    ex_edges = set(d.edges_where(exempt))
-    # restrict the None-of-lock exemption to the lock that guards cancel_connection (the last lock before cancel)
-    good_ex = set()
-    for (a, b) in ex_edges:
-        good_ex.add((a, b))
-    try:
-        if "released" not in A:
-            raise StopIteration
-        reached, n = AbsPaths(d).explore(0, stop_blocks=through, avoid_edges=good_ex)
-        rets = [r for r in d.returns if r in reached]
-        # the first lock (returning the unused connection) also has a None edge; only paths that skip *both* cancel and spawn matter
-        ctx.check(not rets, "Checkout::drop|marker-released",
-                  "every feasible path through the pinned drop continues the attempt in the background, cancels the marker, or is a pure waiter / has no pool",
-                  "the pinned drop can finish without continuing or cancelling the attempt (marker leak: later requests wait forever)", d.where())
-    except StopIteration:
-        pass
-    except AbsPaths.Undecided as e:
-        ctx.undecided("Checkout::drop|marker-released", str(e))
-    for c in cancel if "pure-waiter" in A else []:
-        ok, w = d.guarded(c.bb, lambda lab: lab.kind == "variant" and (lab.adt or "").endswith("InnerCheckoutConnecting") and "Waiting" not in lab.variants)
-        ctx.check(ok, "Checkout::drop|pure-waiter-does-not-cancel", "cancel_connection is not reached for a checkout that only waited on another attempt",
-                  "a pure waiter's drop clears the marker owned by the connecting checkout", c.where(), d.path_desc(w))
-        tr = sig(d.roots(c.args[1]))
-        ctx.check(tr and all(r.kind == "arg" and r.desc.endswith("token") for r in tr), "Checkout::drop|cancel-own-token",
-                  "the marker cancelled is the checkout's own token's", "cancel token roots %s" % sorted(map(repr, tr)), c.where())
-    # continue XOR cancel: an attempt that carries on in the background keeps its marker (cancel_connection would release the
-    # checkouts waiting on it and let later requests dial again although the connection is about to arrive)
-    for sp in spawn if "keeps" in A else []:
-        for c in cancel:
-            pth = d.path(sp.bb, [c.bb]) if c.bb != sp.bb else [sp.bb]
-            ctx.check(pth is None, "Checkout::drop|continued-attempt-keeps-marker", "after the attempt was handed to a background task the marker is not cancelled",
-                      "cancel_connection is reachable after the attempt was handed to a background task: the marker is released although the attempt continues",
-                      c.where(), d.path_desc(pth))
-    for c in spawn if "spawn" in A else []:
-        ok, w = d.guarded(c.bb, L_variant(d, "Some", of_call="client::pool::checkout::Checkout::as_delayed"))
-        ctx.check(ok, "Checkout::drop|spawn-delayed", "the background task is spawned exactly for the checkout returned by as_delayed()",
-                  "spawn not guarded by as_delayed() == Some", c.where(), d.path_desc(w))
-        rr = d.roots(c.args[0])
-        ctx.check(any(r.kind == "call" and r.site.is_("client::pool::checkout::Checkout::as_delayed") for r in rr), "Checkout::drop|spawn-payload",
-                  "the spawned future owns the delayed checkout", "spawn payload roots: %s" % sorted(map(repr, rr)), c.where())
-        ck = closure_arg_of(d, c, 0)
-        body = facts.fns.get(ck) if ck else None
-        polls = [x for x in body.calls() if x.matches(r"client::pool::checkout::Checkout.*Future>::poll|IntoFuture::into_future")] if body else []
-        ctx.check(bool(polls), "Checkout::drop|spawned-awaits", "the spawned task awaits the delayed checkout (its result re-enters the pool through register_connected / Pooled::drop)",
-                  "the spawned task does not await the checkout")
+    # what the pinned drop does (continue XOR cancel, a pure waiter does nothing, the delayed checkout keeps connector / token
+    # / pool, an undelivered connection goes back): decision table over the checkout's states (pooltable.drop_table)
+    if A & {"released", "pure-waiter", "spawn", "keeps"}:
+        import pooltable
+        pooltable.drop_table(ctx, facts)
 
 
 def P11(ctx, facts):
@@ -491,47 +433,9 @@ def P14(ctx, facts):
     # waiter iff it has neither connection nor connector) is part of the Pool::checkout table
     import pooltable
     pooltable.checkout_table(ctx, facts)
-    ad = facts.unit(facts.fn("client::pool::checkout::Checkout::as_delayed"))
-    ctx.touched(ad)
-    lits = ad.aggregates("client::pool::checkout::Checkout")
-    ctx.floor("as_delayed|literal", len(lits), 1, "Checkout literal in as_delayed")
-    for (b, i, s) in lits:
-        r = s["r"]
-        ops = dict(zip(r["fields"], r["ops"]))
-        ok, w = ad.guarded(b, lambda lab: lab.kind == "variant" and lab.variants == {"ConnectingWithDelayDrop"})
-        ctx.check(ok, "as_delayed|only-delayed-variant", "a background checkout is produced only from the ConnectingWithDelayDrop state",
-                  "as_delayed produces a checkout from another state", ad.where(b), ad.path_desc(w))
-        tr = sig(ad.roots(ops["token"]))
-        ctx.check(tr and all(x.kind == "arg" and x.desc.endswith("token") for x in tr), "as_delayed|same-token", "the background checkout keeps the token",
-                  "token roots %s" % sorted(map(repr, tr)), ad.where(b))
-        pr = ad.roots(ops["pool"])
-        ctx.check(any(x.kind == "arg" and x.desc.endswith("pool") for x in pr) and not any(x.kind == "call" and x.site.is_("client::pool::PoolRef::none") for x in pr),
-                  "as_delayed|same-pool", "the background checkout keeps the pool reference (its connection ends up in this pool)",
-                  "pool roots %s" % sorted(map(repr, pr)), ad.where(b))
-        ir = ad.roots(ops["inner"])
-        ctx.check(any(x.kind == "call" and x.site.is_(*OPT_TAKE) for x in ir), "as_delayed|takes-connector", "the connector is moved (take) into the background checkout",
-                  "inner roots %s" % sorted(map(repr, ir)), ad.where(b))
-        d = ad.unique_def(op_place(ops["inner"])["l"]) if op_place(ops["inner"]) else None
-        okv = d is not None and d[0] == "stmt" and d[3]["r"].get("v") == "ConnectingDelayed"
-        ctx.check(okv, "as_delayed|delayed-state", "its state is ConnectingDelayed (not delayed again on drop)", "inner is not ConnectingDelayed", ad.where(b))
-    rets = assigns_to_return(ad, ad.live)
-    for (k, b, x) in rets:
-        if k == "stmt" and x["r"].get("v") == "Some":
-            ok, w = ad.guarded(b, lambda lab: lab.kind == "variant" and lab.variants == {"ConnectingWithDelayDrop"})
-            ctx.check(ok, "as_delayed|Some-only-delayed", "as_delayed returns Some only for the delayed-drop state", "Some returned for another state", ad.where(b), ad.path_desc(w))
-    # converse: a delayed-drop checkout that still owns its connector is always continued - None is returned only for
-    # another state or when the connector is gone (no further condition, e.g. on the connector's progress, may veto it)
-    conn = lambda rr: any(x.kind == "arg" and "inner" in x.desc for x in rr) or any(x.kind == "call" and x.site.matches(r"::project$") for x in rr)
-    none_edge = L_opt(ad, False, conn)
-    n_none = 0
-    for (k, b, x) in rets:
-        if k == "stmt" and x["r"].get("v") == "None":
-            n_none += 1
-            ok, w = ad.guarded(b, lambda lab: (lab.kind == "variant" and "ConnectingWithDelayDrop" not in lab.variants and "CheckoutConnecting" in (lab.adt or "")) or none_edge(lab))
-            ctx.check(ok, "as_delayed|None-only-if-nothing-to-continue", "as_delayed declines only when the state is not delayed-drop or the connector is already gone",
-                      "as_delayed can decline although the checkout still owns a connector in the delayed-drop state: the attempt is cancelled instead of finishing in the background",
-                      ad.where(b), ad.path_desc(w))
-    ctx.floor("as_delayed|None-returns", n_none, 1, "None returns of as_delayed")
+    # as_delayed (a background checkout only from the delayed-drop state that still owns its connector, keeping token and pool,
+    # never delayed again) is decided together with the pinned drop that uses it
+    pooltable.drop_table(ctx, facts)
 
 
 # ------------------------------------------------------------------ P15
@@ -583,15 +487,9 @@ def P15(ctx, facts):
         ctx.check(path in KNOWN_HOLDERS, "holder|%s" % path, "connection holder %s has a checked release path: %s" % (path, KNOWN_HOLDERS.get(path)),
                   "new type %s can hold a pooled connection but has no release obligation" % path, adt.get("span"))
     ctx.floor("holders", n, 6, "types in client::pool that can hold a connection")
-    d = checkout_drop(facts)
-    import pool
-    pushes = d.calls(*[e.nkey for e in pool.entrance_fns(facts)]) if pool.entrance_fns(facts) else []
-    ctx.floor("Checkout::drop|returns-unused", len(pushes), 1, "hand-back of an unused connection in the pinned drop")
-    for c in pushes:
-        rr = d.roots(c.args[2])
-        ok = any(r.kind == "call" and r.site.is_(*OPT_TAKE) for r in rr) and any(r.kind == "arg" and r.desc.endswith("connection") for r in rr)
-        ctx.check(ok, "Checkout::drop|returns-own-connection", "the connection returned is the checkout's own never-delivered `connection`",
-                  "roots %s" % sorted(map(repr, rr)), c.where())
+    # an undelivered connection goes back to the pool on drop (if open, own token): rows `undelivered=conn:open` of the drop table
+    import pooltable
+    pooltable.drop_table(ctx, facts)
     # the Connected arm of poll consumes `connection` via take(): after that the field is None, so drop returns nothing twice
     f = facts.unit(facts.method("client::pool::checkout::Checkout", "Future", "poll"))
     takes = [c for c in f.calls(*OPT_TAKE) if "connection" in _fields_of_ref(f, c.args[0])]
